@@ -120,6 +120,15 @@ func classify(c *Case) (bool, []string) {
 		add(o.flags[k] && o.n > maxFan*maxFan, k+">4096")
 	}
 	add(o.flags["negative-block>=4096-then-more"], "negative-block>=4096-then-more")
+	add(o.ilLookups > 0, "lookup-inside-all")
+	add(o.ilLookups > 0 && o.n > maxFan, "lookup-inside-all>64")
+	add(o.ilLookups > 0 && o.n > maxFan*maxFan, "lookup-inside-all>4096")
+	add(o.ilLockstep >= 2, "lockstep-all")
+	add(o.ilLockstep >= 2 && o.n > maxFan, "lockstep-all>64")
+	add(o.ilLockstep >= 3 && o.n > maxFan, "lockstep-all-three>64")
+	add(o.ilLockstep >= 2 && o.n > maxFan*maxFan, "lockstep-all>4096")
+	add(o.ilLockstep >= 2 && c.Interleave != nil && c.Interleave.ShareSeq && o.n > maxFan, "lockstep-one-seq-value>64")
+	add(o.ilAbandoned && o.n > maxFan, "abandoned-while-others-continue>64")
 	for _, k := range []string{"empty-name-key", "non-ascii-key", "nul-in-key", "prefix-neighbours", "adjacent-keys",
 		"last-byte-differs", "min-int64-key", "max-int64-key", "negative-key", "zero-key", "consecutive-ints",
 		"value-null", "value-ref", "value-null-inside", "value-ref-inside",
